@@ -244,15 +244,41 @@ class Builder:
 			consts = [(n, t) for n, t, f in layout if f == 'const' and n[0].isupper()]
 			simple = [(n, t) for n, t, f in layout if f == 'field' and t[0] in ('int', 'name')]
 			pairs = [(target, const) for const, ct in consts for target, tt in simple if tt == ct]
+			first = None
 			if pairs and rng.randrange(2):
 				target, const = rng.choice(pairs)
 				attrs.append(('initializes', target, const))
+				first = 'typed'
 			elif not concrete and simple:
 				target, ty = rng.choice(simple)
 				if ty[0] == 'int' or ty[1] in dict(self.enums):
 					const = f'W{index}X{len(info["pending"])}'
 					attrs.append(('initializes', target, const))
 					info['pending'].append((const, ty))
+					first = 'pending'
+			# several initializers on one template (what the shipped transaction / block headers do): one whose constant is left to the
+			# structs that use the template AND one whose constant the template declares itself, in either order (attrs are shuffled below)
+			if not concrete and first and simple and rng.randrange(3):
+				self.flags.add('template-with-two-initializers')
+				if first == 'typed':
+					candidates = [(t, ty) for t, ty in simple if ty[0] == 'int' or ty[1] in dict(self.enums)]
+					if candidates:
+						target, ty = rng.choice(candidates)
+						const = f'W{index}X{len(info["pending"])}'
+						attrs.append(('initializes', target, const))
+						info['pending'].append((const, ty))
+				else:
+					if not pairs:
+						own_simple = [(m['name'], m['type']) for m in members if m['form'] == 'field' and m['type'][0] == 'int' and not m.get('cond')]
+						if own_simple:
+							target, ty = rng.choice(own_simple)
+							const = fresh('K')
+							members.append({'form': 'const', 'name': const, 'type': ty, 'value': self.number()})
+							layout.append((const, ty, 'const'))
+							pairs = [(target, const)]
+					if pairs:
+						target, const = rng.choice(pairs)
+						attrs.append(('initializes', target, const))
 		rng.shuffle(attrs)
 		self.ir.append(decl)
 		self.structs.append(name)
@@ -724,6 +750,17 @@ PROBES = [
 	('@size(bar_qq_r1)\nstruct Foo\n\tbar = inline Tpl\n\ninline struct Tpl\n\tqq = inline Tp0\n\ninline struct Tp0\n\tr1 = uint8\n',
 		None, None, None, ['nested-template-after-use', 'ninline:bar', 'nested-prefix:bar_qq_']),
 ]
+# templates (abstract / inline, without users) with two initializers: the constant of one is left to the users of the template (tolerated), the
+# constant of the other is declared by the template itself; consistent, and broken by giving that constant another type than its target - in
+# both orders of the two attributes
+for _mod in ('abstract', 'inline'):
+	for _attrs in (['@initializes(version, ENTITY_VERSION)', '@initializes(network, DEFAULT_NETWORK)'],
+			['@initializes(network, DEFAULT_NETWORK)', '@initializes(version, ENTITY_VERSION)']):
+		for _const_type, _kind in (('uint8', None), ('uint16', 'initializes-type-mismatch')):
+			PROBES.append((
+				'\n'.join(_attrs) + f'\n{_mod} struct Header\n\tDEFAULT_NETWORK = make_const({_const_type}, 104)\n\tversion = uint8\n\tnetwork = uint8\n\n'
+				'struct Other\n\tpayload_size = uint32\n\tpayload = array(uint8, payload_size)\n',
+				_kind, 'Header' if _kind else None, None, []))
 
 
 # ---------------------------------------------------------------------------------------------------------------------
